@@ -24,7 +24,18 @@ def members(scn, cname):
             d[f["name"]] = ("scalar", f)
         for s in cd["subs"]:
             d[s["name"]] = ("sub", s)
+        for l in cd.get("olists", []):
+            d[l["name"]] = ("olist", l)
     return [(n,) + d[n] for n in sorted(d)]
+
+
+def elem_name(lname, k):
+    """path component of element k of list `lname` (the element model's name)"""
+    return "%s[%d]" % (lname, k)
+
+
+def _size_decl(n):
+    return {"name": "size", "w": 32, "s": False, "rand": False, "val": n, "enums": None, "is_size": True}
 
 
 def blocks_of(scn, cname):
@@ -47,6 +58,10 @@ def scalar_paths(scn, cname=None, path=()):
     for n, kind, decl in members(scn, cname):
         if kind == "scalar":
             out.append((path + (n,), decl))
+        elif kind == "olist":
+            out.append((path + (n, "size"), _size_decl(decl["n"])))
+            for k in range(decl["n"]):
+                out.extend(scalar_paths(scn, decl["cls"], path + (n, elem_name(n, k))))
         else:
             out.extend(scalar_paths(scn, decl["cls"], path + (n,)))
     return out
@@ -58,7 +73,18 @@ def object_paths(scn, cname=None, path=()):
     for n, kind, decl in members(scn, cname):
         if kind == "sub":
             out.extend(object_paths(scn, decl["cls"], path + (n,)))
+        elif kind == "olist":
+            out.append((path + (n,), None))                 # the list itself: a composite without class
+            for k in range(decl["n"]):
+                out.extend(object_paths(scn, decl["cls"], path + (n, elem_name(n, k))))
     return out
+
+
+def step(x, n):
+    """one path component: an attribute, or element k of a list for a component `name[k]`"""
+    if n.endswith("]") and "[" in n:
+        return x[int(n[n.index("[") + 1:-1])]
+    return getattr(x, n)
 
 
 def emit_expr(o, e):
@@ -66,7 +92,7 @@ def emit_expr(o, e):
     if k == "fld":
         x = o
         for n in e["path"]:
-            x = getattr(x, n)
+            x = step(x, n)
         return x
     if k == "int":
         return e["v"]
@@ -141,6 +167,8 @@ def build_classes(scn):
         sub_cls = {s["name"]: s for s in cd["subs"]}
         for s in cd["subs"]:
             build(s["cls"])
+        for l in cd.get("olists", []):
+            build(l["cls"])
 
         def __init__(self, _cd=cd, _base=base):
             if _base is not object:
@@ -150,6 +178,11 @@ def build_classes(scn):
             for s in _cd["subs"]:
                 inst = built[s["cls"]]()
                 setattr(self, s["name"], vsc.rand_attr(inst) if s["rand"] else vsc.attr(inst))
+            for l in _cd.get("olists", []):
+                lst = (vsc.rand_list_t if l["rand"] else vsc.list_t)(built[l["cls"]]())
+                for _ in range(l["n"]):
+                    lst.append(built[l["cls"]]())
+                setattr(self, l["name"], lst)
         d = {"__init__": __init__}
         for b in cd["blocks"]:
             def mk(stmts):
@@ -185,7 +218,7 @@ def build_classes(scn):
 def obj_at(root, path):
     x = root
     for n in path:
-        x = getattr(x, n)
+        x = step(x, n)
     return x
 
 
@@ -219,11 +252,18 @@ def run_world(scn):
         with common.quiet():
             r = built[scn["root"]]()
         for p, decl in spaths:
+            if decl.get("is_size"):
+                continue
             o = obj_at(r, p[:-1])
             if decl.get("enums"):
                 setattr(o, p[-1], S.enum_type(decl["enums"])(decl["val"]))
             else:
                 setattr(o, p[-1], decl["val"])
+        for p, cn in opaths:
+            if cn is None:
+                # elements appended before the list got its name are called "<unknown-array>[k]"; names only label
+                # the solver variables: give them the names later elements get (FieldArrayModel.name_elems)
+                obj_at(r, p).get_model().name_elems()
         idmap.update({id(obj_at(r, p)): ".".join(p) for p, _ in opaths})
         roots.append(r)
     new_root()
